@@ -3910,6 +3910,11 @@ Octagonal_Shape<T>
                                      coeff, term)) {
       continue;
     }
+    // Constraints without variables have nothing to contribute
+    // (for them `i', `j' and `coeff' are not meaningful).
+    if (num_vars == 0) {
+      continue;
+    }
 
     typedef typename OR_Matrix<N>::const_row_iterator Row_iterator;
     typedef typename OR_Matrix<N>::const_row_reference_type Row_reference;
